@@ -290,7 +290,7 @@ func registerVF(e *Engine) {
 		fr.m.schedOff = !args[0].(bool)
 		return nil
 	}
-	// vf_RegisterDir(name, infos, badAt) string: an in-memory directory for the scanner stub; returns its path
+	// vf_RegisterDir(name, infos, badAt, nested) string: an in-memory directory for the scanner stub; returns its path
 	vf["vf_RegisterDir"] = func(fr *frame, args []value) value {
 		m := fr.m
 		path := "zzdir/" + m.concreteString(args[0], "dir name")
@@ -305,6 +305,18 @@ func registerVF(e *Engine) {
 					panic(unsupported("vf_RegisterDir: symbolic position"))
 				}
 				reg.badAt = append(reg.badAt, k)
+			}
+		}
+		reg.nested = map[int]bool{}
+		if len(args) > 3 {
+			if xs, ok := args[3].([]value); ok {
+				for _, x := range xs {
+					k, ok := x.(int)
+					if !ok {
+						panic(unsupported("vf_RegisterDir: symbolic index"))
+					}
+					reg.nested[k] = true
+				}
 			}
 		}
 		if m.dirs == nil {
